@@ -80,6 +80,13 @@ MUTANTS = {
         ("oserror-swallowed", "aldy/sam.py", "            for read in iter:\n                if not read.cigartuples:  # only valid alignments", "            for read in _safe(iter):\n                if not read.cigartuples:  # only valid alignments"),
         ("cn-low-depth-guard-removed", "aldy/cn.py", "        if total_cov < min_cov / 2.0:", "        if False:"),
     ],
+    "C01": [
+        ("minus-strand-insertion-anchor", "aldy/gene.py", '                        op = f"ins{rev_comp(op[3:])}"\n                        pos += 1', '                        op = f"ins{rev_comp(op[3:])}"'),
+        ("deletion-anchor-in-realignment", "aldy/sam.py", "                    p -= 1\n                    o = self.gene[p]", "                    o = self.gene[p]"),
+        ("homozygous-postprocessing-one-allele", "aldy/minor.py", "                        if m not in alleles[allele]:\n                            added.append(m)", "                        if m not in alleles[allele] and not solution:\n                            added.append(m)"),
+        ("minus-strand-mnp-anchor", "aldy/gene.py", "                        pos = pos + len(l) - 1", "                        pos = pos"),
+        ("major-novel-cheap", "aldy/profile.py", "        self.major_novel = 21.0", "        self.major_novel = 0.0"),
+    ],
     "C02": [
         ("csat-lower-bound-dropped", "aldy/major.py", '        model.addConstr(expr >= cnt, name=f"CSAT_{cnf}")', '        model.addConstr(expr >= 0, name=f"CSAT_{cnf}")'),
         ("cone-dropped", "aldy/major.py", '        model.addConstr(z <= 1, name=f"CONE_{pos}")', "        pass"),
